@@ -24,12 +24,12 @@ def collect(wt, prop, sid):
     rc1, out1 = sh(f'{PY} demo_mutation.py 2>&1 | tail -5', wt, 900)
     rcw, _ = sh(f'{PY} demo_mutation.py', wt, 900)
     ran['demo_with_change'] = dict(exit=rcw, tail=out1.strip()[-600:])
-    sh('git stash -- bridge_env', wt)
+    sh(f'git apply -R {d}/patch.diff', wt)
     try:
         rco, outo = sh(f'{PY} demo_mutation.py', wt, 900)
         ran['demo_without_change'] = dict(exit=rco, tail=outo.strip()[-300:])
     finally:
-        sh('git stash pop', wt)
+        sh(f'git apply {d}/patch.diff', wt)
     ok = ('4366 passed' in ran['tests_with_change']) and rcw != 0 and rco == 0
     for f in ('demo_mutation.py', 'MUTATION_NOTE.md'):
         if os.path.exists(os.path.join(wt, f)):
